@@ -44,6 +44,7 @@ type ccCase struct {
 	Race       bool     `json:"race,omitempty"`     // C19: listener installed, Wait/SaveCache/Close/hybrid operations enabled
 	Hybrid     bool     `json:"hybrid,omitempty"`
 	LoadStorm  bool     `json:"load_storm,omitempty"`
+	CostYield  int      `json:"cost_yield,omitempty"` // > 0: the store has a cost function that takes about 2 us per unit (yielding) and returns 1; loads pass cost 0
 	PanicEvery int      `json:"panic_every,omitempty"` // C19: the loader panics on every n-th invocation (callers recover)
 	ShortTTL   bool     `json:"short_ttl,omitempty"` // C16: SetWithTTL uses 1-3 ms and the programs nap, so Gets meet expired entries that are still resident
 }
@@ -330,6 +331,15 @@ func execConc(c ccCase, x *verifkit.Ctx, lin, counters bool) (fail *verifkit.Fai
 			opts.Probability = 1
 		}
 	}
+	if c.CostYield > 0 {
+		opts.Cost = func(v int64) int64 {
+			// yields and spins for about 2 us per unit (a bare Gosched returns at once on an idle P)
+			for t0 := time.Now(); time.Since(t0) < time.Duration(2*c.CostYield)*time.Microsecond; {
+				runtime.Gosched()
+			}
+			return 1
+		}
+	}
 	r.s = NewStore[int, int64](opts)
 	defer r.s.Close()
 	if c.Loading {
@@ -348,10 +358,19 @@ func execConc(c ccCase, x *verifkit.Ctx, lin, counters bool) (fail *verifkit.Fai
 			}
 			v := ccValue(key, 200, n)
 			runtime.Gosched()
+			if c.CostYield > 0 {
+				// a load that takes a few microseconds, so that other callers can meet it while it runs
+				for t0 := time.Now(); time.Since(t0) < time.Duration(2*c.CostYield)*time.Microsecond; {
+					runtime.Gosched()
+				}
+			}
 			end := r.stamp.Add(1)
 			r.ldMu.Lock()
 			r.ldIvs[v] = [2]int64{start, end}
 			r.ldMu.Unlock()
+			if c.CostYield > 0 {
+				return Loaded[int64]{Value: v, Cost: 0}, nil // priced by the (slow) cost function
+			}
 			return Loaded[int64]{Value: v, Cost: 1}, nil
 		})
 	}
@@ -426,6 +445,40 @@ func execConc(c ccCase, x *verifkit.Ctx, lin, counters bool) (fail *verifkit.Fai
 			keys = append(keys, k)
 		}
 		sort.Ints(keys)
+		// A load has taken effect before anybody receives its value: the store step is part of the flight.
+		// The linearizability model below cannot say that (a caller that shares a flight may legitimately
+		// receive a value the map no longer holds, so shared reads constrain nothing there). Said directly:
+		// once a caller that shared the load of v has returned, v is in place; a Delete or a Set of another
+		// value that starts after that removes or replaces it, and a plain hit called after that write has
+		// returned cannot yield v any more (seeded C01h: the owner stored the value after the flight, so a
+		// Delete in between was undone).
+		for _, k := range keys {
+			firstShared := map[int64]int64{} // loaded value -> earliest return of a caller that shared it
+			for _, a := range byKey[k] {
+				if a.Kind == "lget" && a.Ok && a.Shared && !a.Loaded {
+					if cur, ok := firstShared[a.Val]; !ok || a.Ret < cur {
+						firstShared[a.Val] = a.Ret
+					}
+				}
+			}
+			for v, jret := range firstShared {
+				wret := int64(-1)
+				var w ccRec
+				for _, a := range byKey[k] {
+					if (a.Kind == "del" || (a.Kind == "set" && a.Ok && a.Val != v)) && a.Call > jret && (wret < 0 || a.Ret < wret) {
+						wret, w = a.Ret, a
+					}
+				}
+				if wret < 0 {
+					continue
+				}
+				for _, g := range byKey[k] {
+					if (g.Kind == "get" || g.Kind == "lget") && g.Ok && !g.Loaded && !g.Shared && g.Val == v && g.Call > wret {
+						return verifkit.Failf("lin/load-applied-after-its-value-was-handed-out", "key %d: a caller that shared the load of value %#x had returned (stamp %d) before %s(%d) was called (stamp %d) and returned (stamp %d); a later Get (called at %d) still found %#x: the load was stored after its value had been handed out, undoing the later write", k, v, jret, w.Kind, k, w.Call, w.Ret, g.Call, v).WithHistory(byKey[k])
+					}
+				}
+			}
+		}
 		judgeStart := time.Now()
 		for _, k := range keys {
 			recs := byKey[k]
@@ -601,6 +654,7 @@ func execConc(c ccCase, x *verifkit.Ctx, lin, counters bool) (fail *verifkit.Fai
 	x.ClassIf(overlapWrites, "read-overlapping-write")
 	x.ClassIf(c.Loading, "loading")
 	x.ClassIf(c.LoadStorm, "load-storm")
+	x.ClassIf(c.CostYield > 0, "load-storm-with-slow-cost-function")
 	x.ClassIf(c.Pool, "entry-pool")
 	x.ClassIf(c.Doorkeeper, "doorkeeper")
 	x.ClassIf(c.Doorkeeper && c.Keys >= 600, "doorkeeper-churn(filters re-allocated)")
@@ -682,6 +736,10 @@ func genConc(forCounters bool) func(t *rapid.T) ccCase {
 				c.Progs = append(c.Progs, rapid.SliceOfN(ls, 100, 300).Draw(t, "prog"))
 			}
 			c.LoadStorm = true
+			// a cost function that takes a while (it yields): whatever the load path does between the end of
+			// the loader and the store step gets a window (seeded C01h: joiners released before the owner
+			// stored the value, a Delete in between is undone by the late store)
+			c.CostYield = rapid.SampledFrom([]int{0, 1, 3, 10}).Draw(t, "costYield")
 		} else if !forCounters && rapid.IntRange(0, 5).Draw(t, "dkGrowth") == 0 {
 			// doorkeeper churn: so many distinct keys that every shard's doorkeeper filter is re-allocated
 			// (it grows with the shard's map) and aged several times while earlier keys are still resident;
